@@ -146,6 +146,16 @@ def rule_prototype_chains_acyclic(ctx, rep, rid: str) -> None:
                 fresh = any(isinstance(d, ast.Call) and (call_name(d).startswith("JS") or call_name(d) in ("array_class",)) for d in _defs_of(f, tgt.id))
                 if tgt.id == "self" and f.name == "__init__":
                     fresh = True
+            if not fresh and isinstance(tgt, ast.Name) and tgt.id == "self" and f.cls is not None and f.name != "__init__":
+                # a method that links `self`: fresh when every call of it is made on an object its caller has just built
+                sites = [cs for cs in ctx.cg.sites if any(t is f for t in cs.targets)]
+                def recv_fresh(cs) -> bool:
+                    fn_ = cs.call.func
+                    if not (isinstance(fn_, ast.Attribute) and isinstance(fn_.value, ast.Name)):
+                        return False
+                    return any(isinstance(d, ast.Call) and call_name(d).startswith("JS") for d in _defs_of(cs.func, fn_.value.id))
+                if sites and all(recv_fresh(cs) for cs in sites):
+                    fresh = True
             if fresh:
                 rep.ok(rid, key, {"target": "fresh object"})
                 continue
